@@ -247,6 +247,7 @@ func goFamilies(tier string, run func(x *engine.Exec, c *GoCase)) []engine.Famil
 		run(x, &GoCase{T: t, V: v, Desc: spec.String(), Class: cl, Fam: fam})
 	}
 	sd := seeds()
+	scalarish := append(append(append([]gen.FieldType{}, gen.ScalarTypes...), gen.FieldType{Name: "interface{}", T: reflect.TypeOf((*interface{})(nil)).Elem()}), gen.NamedScalarTypes()...)
 	fams := []engine.Family{
 		{Name: "struct1", Arity: []int{len(ft1)}, Body: func(x *engine.Exec) {
 			ft := ft1[x.Choose(len(ft1))]
@@ -434,6 +435,34 @@ func goFamilies(tier string, run func(x *engine.Exec, c *GoCase)) []engine.Famil
 			}
 			desc := fmt.Sprintf("inline-nest{A:%v Mid:%d{B:%v In:%d E:%v} F:%v}", hasA, midKind, hasB, innerKind, hasE, hasF)
 			run(x, &GoCase{T: t, V: v, Desc: desc + " " + t.String(), Class: "inline-nest", Fam: "inline-nest"})
+		}},
+		{Name: "scalar-containers", Arity: []int{len(scalarish), 7}, Body: func(x *engine.Exec) {
+			// every primitive kind (built-in and named) and interface{} x {T, []T, map[string]T, *T, [2]T, [][]T, map[string][]T} as a
+			// struct field x {no tag, omitempty, inline}: the per-kind container folders/unfolders selected by reflection
+			base := scalarish[x.Choose(len(scalarish))]
+			wrap := x.Choose(7)
+			t, name := base.T, base.Name
+			switch wrap {
+			case 1:
+				t, name = reflect.SliceOf(t), "[]"+name
+			case 2:
+				t, name = reflect.MapOf(reflect.TypeOf(""), t), "map[string]"+name
+			case 3:
+				t, name = reflect.PtrTo(t), "*"+name
+			case 4:
+				t, name = reflect.ArrayOf(2, t), "[2]"+name
+			case 5:
+				t, name = reflect.SliceOf(reflect.SliceOf(t)), "[][]"+name
+			case 6:
+				t, name = reflect.MapOf(reflect.TypeOf(""), reflect.SliceOf(t)), "map[string][]"+name
+			}
+			tg := []string{"", ",omitempty", ",inline"}[x.Choose(3)]
+			if x.Bool() {
+				mkStruct(x, "scalar-containers", []gen.FieldType{{Name: name, T: t}}, []string{tg}, 4)
+			} else {
+				// at a non-zero offset, followed by another field
+				mkStruct(x, "scalar-containers", []gen.FieldType{ft0[1], {Name: name, T: t}, ft0[0]}, []string{"", tg, "z"}, 3)
+			}
 		}},
 		{Name: "sizes", Arity: []int{6}, Body: func(x *engine.Exec) {
 			// container and string sizes 0..33 (small-size fast paths, growth steps of scratch buffers)
